@@ -115,6 +115,11 @@ pub fn run_check(id: &str, tier: Tier) -> i32 {
             if parts.iter().all(|p| p.failure.is_none()) && id != "C06" {
                 parts.push(run_engine(&PairEngine { focus: Focus::Resets }, &ctx, scale(tier, 8_000, 200_000)));
             }
+            if parts.iter().all(|p| p.failure.is_none()) && id == "C04" {
+                // stream identifiers running out (initial_stream_id near 2^31-1), late frames for forgotten streams,
+                // requests issued afterwards
+                parts.push(run_engine(&crate::eng_queue::QueueEngine, &ctx, scale(tier, 30_000, 300_000)));
+            }
             if parts.iter().all(|p| p.failure.is_none()) && id == "C06" {
                 // requests queued behind the peer's stream limit, the slots released in every way a slot can be released
                 parts.push(run_engine(&crate::eng_queue::QueueEngine, &ctx, scale(tier, 30_000, 300_000)));
@@ -278,7 +283,8 @@ pub fn run_check(id: &str, tier: Tier) -> i32 {
 /// (engine, libFuzzer runs) per property for the thorough tier
 fn fuzz_plan(id: &str) -> Vec<(&'static str, u64)> {
     match id {
-        "C01" | "C02" | "C04" => vec![("pair-coop", 150_000)],
+        "C01" | "C02" => vec![("pair-coop", 150_000)],
+        "C04" => vec![("pair-coop", 150_000), ("raw-queue-client", 100_000)],
         "C06" => vec![("pair-coop", 150_000), ("raw-queue-client", 150_000)],
         "C03" => vec![("raw-flow-server", 200_000)],
         "C05" => vec![("pair-resets", 150_000), ("raw-queue-client", 150_000)],
